@@ -340,15 +340,15 @@ def build_design(items, inputs, t0_mode="port"):
             D["extra_in"].append((nm, tgt))
             return f"self.{nm}"
         k = tgt[0]
-        D["need_z"] = True
-        if k == "Bit":
-            return "self.z[0]"
         if k == "Bool":
             D["need_zb"] = True
             return "self.zb"
         if k == "Int":
             D["need_zi"] = True
             return "self.zi"
+        D["need_z"] = True
+        if k == "Bit":
+            return "self.z[0]"
         base = f"self.z[{tgt[1] - 1}:0]"
         return base + {"BV": "", "U": ".unsigned", "S": ".signed"}[k]
 
@@ -668,7 +668,7 @@ def select_cells(ck):
 # ----------------------------------------------------------------------------
 # (2) per design value theorems
 # ----------------------------------------------------------------------------
-INT_ALPHA = "[VI (-9)%Z; VI (-1)%Z; VI 0%Z; VI 1%Z; VI 2%Z; VI 5%Z; VI 7%Z; VI 8%Z; VI 9%Z; VI 300%Z]"
+INT_ALPHA = "[VI (-9)%Z; VI (-1)%Z; VI 0%Z; VI 1%Z; VI 5%Z; VI 8%Z; VI 300%Z]"
 CASE_DEFS = """Local Open Scope Z_scope.
 Definition inp (ins : list value) (i : nat) : Z := dec (nth i ins (VI 0)).
 (* the represented number of the source, re-encoded in the target (used where no conversion is documented) *)
@@ -702,7 +702,7 @@ def alphabet_for(ins):
         elif t[0] == "Bool":
             parts.append("[VB false; VB true]")
         elif t[0] == "Int":
-            parts.append(INT_ALPHA if n == "a" else "[VI (-9)%Z; VI 0%Z; VI 5%Z; VI 300%Z]")
+            parts.append(INT_ALPHA if n == "a" else "[VI (-9)%Z; VI 5%Z; VI 300%Z]")
         else:
             parts.append("(vec_cands %s %d%%N)" % ({"BV": "KSlv", "U": "KUns", "S": "KSgn"}[t[0]], t[1]))
     return "product [" + "; ".join(parts) + "]"
@@ -965,7 +965,10 @@ def run(ck: common.Check, replay=None):
     singles = []
     for i, c in enumerate(cells):
         if accepted[i] and pydoc[i] and small(c["src"]) and small(c["tgt"]):
-            packs.setdefault(pack_key(c), []).append(c)
+            if defect_class(c) is not None:
+                singles.append([c])     # a known departure (integer branch of a merge): alone, so that it cannot poison a pack
+            else:
+                packs.setdefault(pack_key(c), []).append(c)
     pdesigns = []
     for n, (k, cs) in enumerate(sorted(packs.items(), key=lambda kv: str(kv[0]))):
         for part in range(0, len(cs), 12):
@@ -1177,5 +1180,5 @@ def run(ck: common.Check, replay=None):
     ck.trusted += ["fail-closed VHDL reader", "Vhdl.Sem / Vhdl.NumStd", "Conv.doc_ok / Conv.conv_val as the rendering of the statement",
                    "generator -> source printer (harness/c05.py)"]
     ck.assumptions += ["widths {1,2,3,4,8}; value theorems for widths <= 3 (the Coq theorems C05_value_* cover all widths of the model)",
-                       "run-time integer inputs are driven with a 10 value alphabet",
+                       "run-time integer inputs are driven with a 7 value alphabet (3 values for the other branch of a merge)",
                        "source qualifier is always an input port (decay makes the qualifier of the source irrelevant)"]
